@@ -76,6 +76,7 @@ func (t *Throttler) touch() {
 // Signal indicates that the system is under pressure. Each call increments
 // the delay factor by one, up to the maximum level.
 func (t *Throttler) Signal() {
+	verifhook.Yield("throttler.signal.pre")
 	t.mu.Lock()
 	defer t.mu.Unlock()
 	if t.delayFactor < len(t.delays)-1 {
@@ -88,6 +89,7 @@ func (t *Throttler) Signal() {
 // decrements the delay factor by releaseRate, down to zero. This gradual
 // decay avoids oscillation when load is near the system's capacity.
 func (t *Throttler) Release() {
+	verifhook.Yield("throttler.release.pre")
 	t.mu.Lock()
 	defer t.mu.Unlock()
 	t.delayFactor -= t.releaseRate
